@@ -347,6 +347,46 @@ fn render(d: &Decls, scrut: &PT, kind: &str, pats: &[P]) -> String {
   s
 }
 
+/// The same case spread over two modules: module `Decls` declares the types and a factory whose
+/// result type is the scrutinee type; the judged module declares *decoy* enums with the same class
+/// names (one differently named variant each), imports only the factory and receives the scrutinee
+/// by inference. The verdict must be the one for the scrutinee's real type.
+fn render_shadow(d: &Decls, scrut: &PT, kind: &str, pats: &[P]) -> (String, String) {
+  let mut decls = String::from("import { Pair, Triple } from std.tuples;\n\n");
+  if d.uses_opt {
+    decls.push_str("class Opt<T>(Non, Som(T)) {}\n");
+  }
+  for (i, vs) in d.enums.iter().enumerate() {
+    let body: Vec<String> = vs.iter().map(|(n, ts)| if ts.is_empty() { n.clone() } else { format!("{n}({})", ts.iter().map(ty_str).collect::<Vec<_>>().join(", ")) }).collect();
+    decls.push_str(&format!("class E{i}({}) {{}}\n", body.join(", ")));
+  }
+  for (i, fs) in d.structs.iter().enumerate() {
+    let body: Vec<String> = fs.iter().map(|(n, t)| format!("val {n}: {}", ty_str(t))).collect();
+    decls.push_str(&format!("class S{i}({}) {{}}\n", body.join(", ")));
+  }
+  decls.push_str(&format!("\nclass Mk {{\n  function get(): {} = Mk.get()\n}}\n", ty_str(scrut)));
+  let mut s = String::from("import { Mk } from Decls;\n\n");
+  for i in 0..d.enums.len() {
+    // decoys: fewer variants for even, more for odd indices, none of them shared with the real enum
+    if i % 2 == 0 {
+      s.push_str(&format!("class E{i}(Zq{i}) {{}}\n"));
+    } else {
+      s.push_str(&format!("class E{i}(Zq{i}, Zr{i}(int), Zs{i}, Zt{i}, Zu{i}, Zv{i}) {{}}\n"));
+    }
+  }
+  s.push_str("\nclass Main {\n");
+  let body = match kind {
+    "match" => {
+      let arms: Vec<String> = pats.iter().enumerate().map(|(i, p)| format!("      {} -> {},", pat_str(p), i)).collect();
+      format!("match v {{\n{}\n    }}", arms.join("\n"))
+    }
+    "let" => format!("{{\n      let {} = v;\n      0\n    }}", pat_str(&pats[0])),
+    _ => format!("if let {} = v {{ 1 }} else {{ 2 }}", pat_str(&pats[0])),
+  };
+  s.push_str(&format!("  function test(): int = {{\n    let v = Mk.get();\n    {}\n  }}\n\n  function main(): unit = {{  }}\n}}\n", body));
+  (s, decls)
+}
+
 fn pt_json(t: &PT) -> Value {
   match t {
     PT::Leaf => json!("leaf"),
@@ -476,7 +516,10 @@ pub fn gen_case(t: &mut Tape) -> Value {
       }
     }
     let d = g.d.clone();
+    // (decided last, so that the other choices of a tape do not depend on it)
+    let shadow = !d.enums.is_empty() && g.t.bool(1, 8);
     json!({
+      "shadow": shadow,
       "enums": d.enums.iter().map(|vs| vs.iter().map(|(n, ts)| json!([n, ts.iter().map(pt_json).collect::<Vec<_>>()])).collect::<Vec<_>>()).collect::<Vec<_>>(),
       "structs": d.structs.iter().map(|fs| fs.iter().map(|(n, t)| json!([n, pt_json(t)])).collect::<Vec<_>>()).collect::<Vec<_>>(),
       "uses_opt": d.uses_opt,
@@ -522,7 +565,13 @@ impl Prop for C07 {
     let kind = art["kind"].as_str().unwrap_or("match").to_string();
     let pats: Vec<P> = art["patterns"].as_array().cloned().unwrap_or_default().iter().map(p_of).collect();
     // the text is re-rendered from the structured artifact so that both always agree
-    let text = render(&d, &scrut, &kind, &pats);
+    let shadow = art["shadow"].as_bool().unwrap_or(false);
+    let (text, decls_text) = if shadow {
+      let (m, dm) = render_shadow(&d, &scrut, &kind, &pats);
+      (m, Some(dm))
+    } else {
+      (render(&d, &scrut, &kind, &pats), None)
+    };
     out.key = fnv(text.as_bytes());
     let depth = pats.iter().map(pat_depth).max().unwrap_or(0) + 1;
     let Some(universe) = values(&d, &scrut, depth, 50_000) else {
@@ -552,11 +601,17 @@ impl Prop for C07 {
     let mr = heap.alloc_module_reference_from_string_vec(vec!["M".into()]);
     let mut es = ErrorSet::new();
     let mut parsed = HashMap::new();
-    let user = [text.as_str()];
+    let user: Vec<&str> = [Some(text.as_str()), decls_text.as_deref()].into_iter().flatten().collect();
     for (name, src) in crate::model::front::needed_std(&mut heap, &user) {
       let smr = heap.alloc_module_reference_from_string_vec(name);
       let mut ignore = ErrorSet::new();
       parsed.insert(smr, samlang_parser::parse_source_module_from_text(&src, smr, &mut heap, &mut ignore));
+    }
+    if let Some(dt) = &decls_text {
+      let dmr = heap.alloc_module_reference_from_string_vec(vec!["Decls".into()]);
+      let mut ignore = ErrorSet::new();
+      parsed.insert(dmr, samlang_parser::parse_source_module_from_text(dt, dmr, &mut heap, &mut ignore));
+      out.label("host:scrutinee-type-of-another-module-shadowed-by-same-named-local-enums");
     }
     let module = match guard(|| samlang_parser::parse_source_module_from_text(&text, mr, &mut heap, &mut es)) {
       Ok(m) => m,
